@@ -48,9 +48,17 @@ VARIABLES
     lim,         \* the limiter: [start, cnt]  (start = NoWin: zero windowStart)
     reach,       \* ghost: ticks at which some request reached the limiter
     adm,         \* ghost: adm[p][t] = requests of principal p admitted at tick t
+    ran,         \* ghost: ran[p][t] = introspections (requests of principal p that
+                 \*        reached the resolver, whatever it answered) at tick t
+    win,         \* ghost: win[p] = what became of the requests of p the limiter admitted
+                 \*        in ITS current window, in order: the resolver outcome handed
+                 \*        out ("hit60", "miss", "unavail", ...) or "pre" (screened before
+                 \*        the resolver).  Never read by an action; generation VIEWs that
+                 \*        show it (ViewMix) make TLC follow every request class from every
+                 \*        ORDER of outcomes within a window, not only from every count.
     hist         \* history / observation channel to the harness
 
-vars == <<enabled, authfn, now, lim, reach, adm, hist>>
+vars == <<enabled, authfn, now, lim, reach, adm, ran, win, hist>>
 
 EffRate == IF RateCfg <= 0 THEN 20 ELSE RateCfg
 EffTTL  == IF DefTTLCfg <= 0 THEN 300 ELSE DefTTLCfg
@@ -186,8 +194,9 @@ JWSShaped(s) == Len(s) = 3 /\ s[1] = "u" /\ s[2] = "u" /\ s[3] \in {"u", "e"}
 
 \* introspectRateLimiter.allow(key) at tick t
 FreshLim == [start |-> NoWin, cnt |-> [p \in Allow |-> 0]]
+WindowOver(l, t) == l.start = NoWin \/ t - l.start >= W
 LimAllow(l, p, t) ==
-    LET l1 == IF l.start = NoWin \/ t - l.start >= W
+    LET l1 == IF WindowOver(l, t)
               THEN [start |-> t, cnt |-> [q \in Allow |-> 0]]     \* clear(l.counts)
               ELSE l
     IN IF l1.cnt[p] >= EffRate
@@ -210,6 +219,21 @@ LogAuth(kind) == CASE kind = "reject401" -> <<>>
                    [] kind = "reject500" -> <<L("ERROR", {"err", "remote_addr"})>>
 
 --------------------------------------------------------------------------
+(* The windows the PROPERTY speaks of.                                       *)
+\* The fixed windows, recovered from history alone: the first window starts at
+\* the first request that reached the limiter; the next one at the first such
+\* request at or after the previous start + W.
+Min(S) == CHOOSE x \in S : \A y \in S : x <= y
+RECURSIVE StartsFrom(_, _)
+StartsFrom(R, t) ==
+    LET S == {u \in R : u >= t} IN
+    IF S = {} THEN {} ELSE LET s == Min(S) IN {s} \cup StartsFrom(R, s + W)
+WindowOf(R, t) == CHOOSE s \in StartsFrom(R \cup {t}, 0) : s <= t /\ t < s + W
+RECURSIVE SumF(_, _, _)
+SumF(f, lo, hi) == IF lo > hi THEN 0 ELSE f[lo] + SumF(f, lo + 1, hi)
+Min2(x, y) == IF x < y THEN x ELSE y
+
+--------------------------------------------------------------------------
 \* In "mc" mode only the last step is kept (the properties read nothing older; the
 \* history they need is in the ghosts reach/adm), which keeps states small.
 Record(step) ==
@@ -219,12 +243,20 @@ Record(step) ==
 
 Budget == (Mode = "tree") => Len(hist) < Depth
 
+\* win_start: first tick of the window the request falls in -- the window as the
+\* PROPERTY defines it (recovered from the history of requests, see WindowOf below),
+\* not the limiter's.  The harness counts the resolver invocations it journalled for
+\* the caller since that instant: exp.runs.
 ReqArgs(c, k, o) ==
     [caller |-> c, cattr |-> Eff(c), cred |-> k, body |-> CredAttr[k],
-     outcome |-> o, oattr |-> OutcomeAttr[o], now |-> now]
+     outcome |-> o, oattr |-> OutcomeAttr[o], now |-> now,
+     win_start |-> WindowOf(reach, now)]
+
+\* introspections of principal p in the window of the present request, before it
+RunsSoFar(p) == SumF(ran[p], WindowOf(reach, now), now)
 
 \* a request that never reaches the limiter
-Untouched == UNCHANGED <<enabled, authfn, now, lim, reach, adm>>
+Untouched == UNCHANGED <<enabled, authfn, now, lim, reach, adm, ran, win>>
 
 NotEnabled_404(c, k) ==
     /\ Budget
@@ -266,11 +298,13 @@ RateLimited_429(c, k) ==
     /\ ~Limiter(c).ok
     /\ lim' = Limiter(c).lim
     /\ reach' = reach \cup {now}
-    /\ UNCHANGED <<enabled, authfn, now, adm>>
+    /\ win' = IF WindowOver(lim, now) THEN [q \in Allow |-> <<>>] ELSE win
+    /\ UNCHANGED <<enabled, authfn, now, adm, ran>>
     /\ Record([a |-> "RateLimited_429", args |-> ReqArgs(c, k, "none"),
                exp |-> [limited |-> TRUE, code |-> 429, body_x |-> "rate_limited",
                         retry_after |-> "1", read_x |-> FALSE,
-                        resolver |-> 0, leak |-> FALSE, adv |-> TRUE,
+                        resolver |-> 0, runs |-> RunsSoFar(Eff(c).prin),
+                        leak |-> FALSE, adv |-> TRUE,
                         logs |-> LogRateLimited, fields |-> {"error"}]])
 
 \* common part of every exit after the limiter admitted the request
@@ -280,34 +314,43 @@ AdmitGuard(c) ==
     /\ enabled
     /\ Introspector(c)
     /\ Limiter(c).ok
-AdmitEffect(c) ==
+\* sym: what becomes of the admitted request -- "pre" or the resolver outcome.  The
+\* charge is the same whatever sym is: allow() ran before the body was looked at and
+\* nothing ever gives an admission back.
+AdmitEffect(c, sym) ==
     /\ lim' = Limiter(c).lim
     /\ reach' = reach \cup {now}
     /\ adm' = [adm EXCEPT ![Eff(c).prin][now] = @ + 1]
+    /\ ran' = IF sym = "pre" THEN ran ELSE [ran EXCEPT ![Eff(c).prin][now] = @ + 1]
+    /\ win' = LET w0 == IF WindowOver(lim, now) THEN [q \in Allow |-> <<>>] ELSE win
+              IN [w0 EXCEPT ![Eff(c).prin] = Append(@, sym)]
     /\ UNCHANGED <<enabled, authfn, now>>
 
-Unresolved(name, c, k, o, read, ran, logs) ==
+\* introspections of the caller in the window, this request included
+Runs(c, nran) == RunsSoFar(Eff(c).prin) + nran
+
+Unresolved(name, c, k, o, read, nran, logs) ==
     Record([a |-> name, args |-> ReqArgs(c, k, o),
             exp |-> [limited |-> FALSE, status |-> 404, body |-> "ref404", read_x |-> read,
-                     resolver |-> ran, leak |-> FALSE, adv |-> TRUE,
+                     resolver |-> nran, runs |-> Runs(c, nran), leak |-> FALSE, adv |-> TRUE,
                      logs |-> logs, fields |-> {"error"}]])
 
 ContentLengthOverCap_404(c, k) ==
     /\ DeclaredOverCap(CredAttr[k])
     /\ AdmitGuard(c)
-    /\ AdmitEffect(c)
+    /\ AdmitEffect(c, "pre")
     /\ Unresolved("ContentLengthOverCap_404", c, k, "none", FALSE, 0, <<>>)
 
 BodyReadFails_404(c, k) ==
     /\ LET b == CredAttr[k] IN ~DeclaredOverCap(b) /\ ReadFails(b)
     /\ AdmitGuard(c)
-    /\ AdmitEffect(c)
+    /\ AdmitEffect(c, "pre")
     /\ Unresolved("BodyReadFails_404", c, k, "none", TRUE, 0, <<>>)
 
 BodyOverCap_404(c, k) ==
     /\ LET b == CredAttr[k] IN ~DeclaredOverCap(b) /\ ~ReadFails(b) /\ DeliveredOverCap(b)
     /\ AdmitGuard(c)
-    /\ AdmitEffect(c)
+    /\ AdmitEffect(c, "pre")
     /\ Unresolved("BodyOverCap_404", c, k, "none", TRUE, 0, <<>>)
 
 Readable(b) == ~DeclaredOverCap(b) /\ ~ReadFails(b) /\ ~DeliveredOverCap(b)
@@ -315,20 +358,20 @@ Readable(b) == ~DeclaredOverCap(b) /\ ~ReadFails(b) /\ ~DeliveredOverCap(b)
 BadJSON_404(c, k) ==
     /\ LET b == CredAttr[k] IN Readable(b) /\ ParseFails(b)
     /\ AdmitGuard(c)
-    /\ AdmitEffect(c)
+    /\ AdmitEffect(c, "pre")
     /\ Unresolved("BadJSON_404", c, k, "none", TRUE, 0, <<>>)
 
 NoToken_404(c, k) ==
     /\ LET b == CredAttr[k] IN Readable(b) /\ ~ParseFails(b) /\ TokenEmpty(b)
     /\ AdmitGuard(c)
-    /\ AdmitEffect(c)
+    /\ AdmitEffect(c, "pre")
     /\ Unresolved("NoToken_404", c, k, "none", TRUE, 0, <<>>)
 
 TokenOversized_404(c, k) ==
     /\ LET b == CredAttr[k] IN
           Readable(b) /\ ~ParseFails(b) /\ ~TokenEmpty(b) /\ TokenOversized(b)
     /\ AdmitGuard(c)
-    /\ AdmitEffect(c)
+    /\ AdmitEffect(c, "pre")
     /\ Unresolved("TokenOversized_404", c, k, "none", TRUE, 0, <<>>)
 
 HasCredential(b) == Readable(b) /\ ~ParseFails(b) /\ ~TokenEmpty(b) /\ ~TokenOversized(b)
@@ -336,7 +379,7 @@ HasCredential(b) == Readable(b) /\ ~ParseFails(b) /\ ~TokenEmpty(b) /\ ~TokenOve
 JWS_404(c, k) ==
     /\ LET b == CredAttr[k] IN HasCredential(b) /\ JWSShaped(b.segs)
     /\ AdmitGuard(c)
-    /\ AdmitEffect(c)
+    /\ AdmitEffect(c, "pre")
     /\ Unresolved("JWS_404", c, k, "none", TRUE, 0, LogJWS)
 
 ReachesResolver(b) == HasCredential(b) /\ ~JWSShaped(b.segs)
@@ -345,31 +388,32 @@ Resolver_503(c, k, o) ==
     /\ ReachesResolver(CredAttr[k])
     /\ OutcomeAttr[o].err # "none"
     /\ AdmitGuard(c)
-    /\ AdmitEffect(c)
+    /\ AdmitEffect(c, o)
     /\ Record([a |-> "Resolver_503", args |-> ReqArgs(c, k, o),
                exp |-> [limited |-> FALSE, code |-> 503, body_x |-> "unavailable",
                         retry_after |-> ToString(RetryOf(OutcomeAttr[o])), read_x |-> TRUE,
-                        resolver |-> 1, leak |-> FALSE, adv |-> TRUE,
+                        resolver |-> 1, runs |-> Runs(c, 1), leak |-> FALSE, adv |-> TRUE,
                         logs |-> LogUnavailable, fields |-> {"error"}]])
 
 Resolver_404(c, k, o) ==
     /\ ReachesResolver(CredAttr[k])
     /\ OutcomeAttr[o].err = "none" /\ ~OutcomeAttr[o].ok
     /\ AdmitGuard(c)
-    /\ AdmitEffect(c)
+    /\ AdmitEffect(c, o)
     /\ Unresolved("Resolver_404", c, k, o, TRUE, 1, LogUnresolved)
 
 Resolver_200(c, k, o) ==
     /\ ReachesResolver(CredAttr[k])
     /\ OutcomeAttr[o].err = "none" /\ OutcomeAttr[o].ok
     /\ AdmitGuard(c)
-    /\ AdmitEffect(c)
+    /\ AdmitEffect(c, o)
     /\ Record([a |-> "Resolver_200", args |-> ReqArgs(c, k, o),
                exp |-> [limited |-> FALSE, code |-> 200, body_x |-> "ok",
                         ok_body |-> [principal |-> "subject", token_name |-> "name",
                                      ttl_seconds |-> IF OutcomeAttr[o].ttl > 0
                                                      THEN OutcomeAttr[o].ttl ELSE EffTTL],
-                        read_x |-> TRUE, resolver |-> 1, leak |-> FALSE, adv |-> TRUE,
+                        read_x |-> TRUE, resolver |-> 1, runs |-> Runs(c, 1),
+                        leak |-> FALSE, adv |-> TRUE,
                         logs |-> LogResolved,
                         fields |-> {"principal", "token_name", "ttl_seconds"}]])
 
@@ -379,7 +423,7 @@ Enable ==
     /\ ~enabled
     /\ enabled' = TRUE
     /\ lim' = FreshLim
-    /\ UNCHANGED <<authfn, now, reach, adm>>
+    /\ UNCHANGED <<authfn, now, reach, adm, ran, win>>
     /\ Record([a |-> "Enable", args |-> [rate |-> RateCfg, ttl |-> DefTTLCfg],
                exp |-> [err |-> FALSE, adv |-> TRUE]])
 
@@ -395,7 +439,7 @@ Tick(d) ==
     /\ Budget
     /\ now + d <= MaxT
     /\ now' = now + d
-    /\ UNCHANGED <<enabled, authfn, lim, reach, adm>>
+    /\ UNCHANGED <<enabled, authfn, lim, reach, adm, ran, win>>
     /\ Record([a |-> "Tick", args |-> [d |-> d], exp |-> [x |-> 0]])
 
 Init ==
@@ -405,6 +449,8 @@ Init ==
     /\ lim = FreshLim
     /\ reach = {}
     /\ adm = [p \in Allow |-> [t \in 0..MaxT |-> 0]]
+    /\ ran = [p \in Allow |-> [t \in 0..MaxT |-> 0]]
+    /\ win = [p \in Allow |-> <<>>]
     /\ hist = << [a |-> "Init",
                   args |-> [authfn |-> authfn, W |-> W, RateCfg |-> RateCfg,
                             DefTTLCfg |-> DefTTLCfg],
@@ -463,18 +509,8 @@ NotJWSNorOversized(b) ==
     /\ ~(Len(b.segs) = 3 /\ b.segs[1] = "u" /\ b.segs[2] = "u" /\ b.segs[3] \in {"u", "e"})
 Resolvable(b) == WellFormed(b) /\ NotJWSNorOversized(b)
 
-\* The fixed windows, recovered from history alone: the first window starts at
-\* the first request that reached the limiter; the next one at the first such
-\* request at or after the previous start + W.
-Min(S) == CHOOSE x \in S : \A y \in S : x <= y
-RECURSIVE StartsFrom(_, _)
-StartsFrom(R, t) ==
-    LET S == {u \in R : u >= t} IN
-    IF S = {} THEN {} ELSE LET s == Min(S) IN {s} \cup StartsFrom(R, s + W)
-WindowOf(R, t) == CHOOSE s \in StartsFrom(R \cup {t}, 0) : s <= t /\ t < s + W
-RECURSIVE SumF(_, _, _)
-SumF(f, lo, hi) == IF lo > hi THEN 0 ELSE f[lo] + SumF(f, lo + 1, hi)
-Min2(x, y) == IF x < y THEN x ELSE y
+\* (the fixed windows recovered from history alone -- StartsFrom / WindowOf / SumF --
+\* are defined above, before ReqArgs)
 
 \* principal p has budget left in the window the present request falls in
 WithinRate(p) == SumF(adm[p], WindowOf(reach, now), now) < EffRate
@@ -483,6 +519,15 @@ WithinRate(p) == SumF(adm[p], WindowOf(reach, now), now) < EffRate
 AdmittedPerWindow ==
     \A p \in Allow : \A s \in StartsFrom(reach, 0) :
         SumF(adm[p], s, Min2(s + W - 1, MaxT)) <= EffRate
+\* the ghost win is in step with the limiter (for cfgs whose VIEW shows win)
+WinMatchesLim == \A p \in Allow : Len(win[p]) = lim.cnt[p]
+\* (1') per caller and window, INTROSPECTIONS <= rate: the resolver is handed at most
+\*      the configured number of credentials by one caller in one window, whatever it
+\*      answers -- resolved, unresolved or failing       [viewed state: INVARIANT]
+IntrospectionsPerWindow ==
+    /\ \A p \in Allow : \A t \in 0..MaxT : ran[p][t] \in 0..adm[p][t]
+    /\ \A p \in Allow : \A s \in StartsFrom(reach, 0) :
+          SumF(ran[p], s, Min2(s + W - 1, MaxT)) <= EffRate
 \* corollary the code comments on: at most twice the rate across any window-long span
 SlidingBound ==
     \A p \in Allow : \A t \in 0..MaxT :
@@ -507,6 +552,18 @@ RateObserved ==
     [][ (IsReq(Last) /\ enabled /\ MayIntrospect(Last.args.caller)) =>
           /\ Has(Last, "limited")
           /\ Last.exp.limited = ~WithinRate(Eff(Last.args.caller).prin) ]_vars
+
+\* ... and the count of introspections the harness is told to observe (exp.runs) is the
+\* caller's count in the window of the request, never above the rate, and goes up by
+\* exactly the resolver's invocations for this request -- whichever way it answered
+RunsObserved ==
+    [][ (IsReq(Last) /\ enabled /\ MayIntrospect(Last.args.caller)) =>
+          LET p == Eff(Last.args.caller).prin IN
+          /\ Has(Last, "runs")
+          /\ Last.exp.runs = SumF(ran'[p], WindowOf(reach', now'), now')
+          /\ Last.exp.runs = SumF(ran[p], WindowOf(reach, now), now) + Last.exp.resolver
+          /\ Last.exp.runs <= EffRate
+          /\ Last.args.win_start = WindowOf(reach', now') ]_vars
 
 \* (3) a caller that passes authentication but may not introspect gets THE 403 body,
 \*     and the request body has not been touched
@@ -553,5 +610,10 @@ ResolvesWhenEntitled ==
             /\ Resolvable(Body(Last)) /\ WithinRate(Eff(Last.args.caller).prin)) => Ran(Last) ]_vars
 
 ViewMC  == <<enabled, authfn, now, lim, reach, adm>>
+\* ... for cfgs that check IntrospectionsPerWindow / RunsObserved (they read ran)
+ViewMCr == <<enabled, authfn, now, lim, reach, adm, ran>>
 ViewGen == <<enabled, authfn, now, lim>>
+\* generation by outcome ORDER: the limiter state plus, per caller, what became of every
+\* request admitted in the current window (lim.cnt[p] = Len(win[p]))
+ViewMix == <<enabled, authfn, now, lim, win>>
 =============================================================================
